@@ -5,7 +5,7 @@ import MM.Model.C17
   Engine c17: the real exit.Handler and forward.Handler (recording StreamWriter, loopback TCP sink
   as destination) against MM/Model/C17.lean.  Serials are global over both handlers.
 
-    open H id peer | data H id peer serial | close H id peer | rst H id peer | dsteof H serial | end
+    open H id peer | openfail H kind id peer | data H id peer serial | close H id peer | rst H id peer | dsteof H serial | end
   answer: ev=[…sorted…] count=<exit>/<fwd> keys=[exit/id:serial … fwd/id:serial …]
 -/
 namespace MM.Engine.C17
@@ -19,6 +19,7 @@ structure St where
 
 def showEv : Ev → String
   | .ack p i => s!"ack:{p}:{i}"
+  | .err p i => s!"err:{p}:{i}"
   | .close p i => s!"close:{p}:{i}"
   | .fin p i => s!"fin:{p}:{i}"
   | .dst s => s!"dst:{s}"
@@ -39,6 +40,9 @@ def out (s : St) (evs : List Ev) : St × String :=
   let es := (evs.map showEv).foldr insertStr []
   (s, s!"ev=[{" ".intercalate es}] count={s.ex.count}/{s.fw.count} keys=[{" ".intercalate (showKeys "exit" s.ex ++ showKeys "fwd" s.fw)}]")
 
+/-- MaxConnections the harness configures for both handlers. -/
+def maxConns : Nat := 6
+
 def getH (s : St) (h : String) : Handler := if h == "exit" then s.ex else s.fw
 def setH (s : St) (h : String) (x : Handler) : St := if h == "exit" then { s with ex := x } else { s with fw := x }
 
@@ -47,10 +51,14 @@ def step (s : St) (line : String) : St × String :=
   | "reset" :: _ => ({}, "ok")
   | ["end"] => out s []
   | ["open", h, i, p] =>
-    let hd := { getH s h with next := s.serial }
-    let (hd', evs) := hd.opened i.toNat! p.toNat!
+    let hd := { getH s h with next := s.serial, max := maxConns }
+    let (hd', evs) := hd.tryOpen i.toNat! p.toNat!
     let s' := setH s h hd'
-    out { s' with serial := s.serial + 1, recs := (s.serial, h, Conn.mk' i.toNat! p.toNat! s.serial) :: s.recs } evs
+    if hd'.next == s.serial then out s' evs          -- refused: connection limit
+    else out { s' with serial := s.serial + 1, recs := (s.serial, h, Conn.mk' i.toNat! p.toNat! s.serial) :: s.recs } evs
+  | ["openfail", h, _, i, p] =>
+    let (hd', evs) := (getH s h).openFail i.toNat! p.toNat!
+    out (setH s h hd') evs
   | ["data", h, i, p, k] =>
     if k.toNat! ≥ s.serial then (s, "bad-op") else
     let (hd', evs) := (getH s h).data i.toNat! p.toNat! k.toNat!
@@ -98,6 +106,7 @@ def specStep (s : SpecSt) (l : String) : SpecSt × String :=
   match l.splitOn "\t" with
   | [op, out] =>
     if out.startsWith "panic" || out.startsWith "crash" then (s, "fail crashed")
+    else if out.trimAscii.toString == "bad-op" then (s, "ok")   -- op names a serial that was never opened (open refused at the limit)
     else
     match tokens op with
     | "reset" :: _ => ({}, "ok")
